@@ -39,9 +39,12 @@ K4 = {
         r"^core::ops::arith::(Add|Sub)::(add|sub)$",        # only for Instant/SystemTime/Duration operands (filtered by type)
         r"^std::time::Instant::(duration_since|elapsed)$",  # saturating since 1.60: not panicking; listed for review
     ],
+    "PERIOD": [
+        r"^tokio::time::interval::interval(_at)?$",          # panics when the period is zero
+        r"^tokio::sync::mpsc::bounded::channel$",            # panics when the capacity is zero
+        r"^tokio::sync::broadcast::channel$",
+    ],
     "CTOR": [
-        r"^tokio::sync::mpsc::bounded::channel$",
-        r"^tokio::time::interval::interval(_at)?$",
         r"^core::num::nonzero::NonZero::<T>::new_unchecked$",
         r"^alloc::vec::Vec::<T>::with_capacity$",
         r"^tokio::runtime::",
@@ -931,6 +934,35 @@ def g_sub(fn, edge):
     return False, ""
 
 
+def g_period(fn, edge):
+    """tokio::time::interval(period): the period is a Duration built from a positive constant (Duration::from_secs(1)); anything
+    computed (a configured timeout, a quotient, min/max of durations) can be zero"""
+    c = edge.call
+    if c is None or not c.args:
+        return False, ""
+    a = c.args[-1]          # interval(period) / interval_at(start, period) / channel(capacity)
+    if re.search(r"channel$", c.path or ""):
+        v = fn.int_of(a)
+        if v is not None and v > 0:
+            return True, "capacity is the positive constant %d" % v
+        return False, ""
+    l = op_base(a)
+    if l is None:
+        k = op_const(a)
+        s_ = (k or {}).get("s", "")
+        if re.search(r"Duration::(SECOND|MILLISECOND|MICROSECOND|NANOSECOND|MAX)$", s_):
+            return True, "period is the constant %s" % s_
+        return False, ""
+    for kind, info in fn.trace(l):
+        if kind == "call":
+            if re.search(r"time::Duration::from_(secs|millis|micros|nanos)$", info.path or "") and info.args:
+                v = fn.int_of(info.args[0])
+                if v is not None and v > 0:
+                    return True, "period is Duration::%s(%d), a positive constant" % (info.path.rsplit("::", 1)[1], v)
+            return False, ""
+    return False, ""
+
+
 # ---------------------------------------------------------------------------- pipeline
 
 def classify(fn, edge):
@@ -965,6 +997,9 @@ def classify(fn, edge):
         cls = edge.sub.split(":")[0]
         if cls in K4_INFO_ONLY:
             return True, "class %s: cannot be driven by peer data (recorded, not armed)" % cls, "info"
+        if cls == "PERIOD":
+            ok, why = g_period(fn, edge)
+            return ok, why, "G-const" if ok else ""
         if cls in ("BYTES-CONSUME", "INDEX", "VEC-POS"):
             bo = bytebudget.bufops(fn)
             ok, why = bo.decide(edge.bb)
